@@ -688,7 +688,12 @@ func (c *Compiler) validateTypedef(td parse.Node, onPath map[parse.Node]bool) {
 		if tname.Space != "" {
 			if refMod, err := typ.GetModuleByPrefix(
 				tname.Space, c.modules, true); err == nil && refMod != nil {
-				refType, _ = refMod.LookupType(tname.Local)
+				if refMod == typ.Root() {
+					// (the own prefix: searched like a bare name)
+					refType, _ = typ.LookupType(tname.Local)
+				} else {
+					refType, _ = refMod.LookupType(tname.Local)
+				}
 			}
 		} else {
 			refType, _ = typ.LookupType(tname.Local)
@@ -2598,7 +2603,15 @@ func (c *Compiler) BuildBaseType(
 			c.error(typ, err)
 		}
 		tname.Space = refMod.Name()
-		refType, ok = refMod.LookupType(tname.Local)
+		if refMod == typ.Root() {
+			// A name written with the prefix of the (sub)module it is
+			// used in is the same reference as the bare name (RFC 7950
+			// sec. 5.5, 6.4.1): search the scopes that enclose the type
+			// statement, not just the top level typedefs.
+			refType, ok = typ.LookupType(tname.Local)
+		} else {
+			refType, ok = refMod.LookupType(tname.Local)
+		}
 		typeName = tname.Space + ":" + tname.Local
 	} else {
 		typeName = tname.Local
